@@ -130,4 +130,103 @@ theorem adjP_beyond (c : Cal) (hnd : NonDeg c) (t : Int) :
       simp at this
       exact this.2
 
+/-! ### `Calendar.drange(.., 'kb')` for any k -/
+
+theorem mapM_ok_get (f : Int → Res Int) : ∀ (l r : List Int), l.mapM f = .ok r →
+    r.length = l.length ∧ ∀ (i : Nat) (x : Int), l[i]? = some x → ∃ v, f x = .ok v ∧ r[i]? = some v
+  | [], r, h => by
+    simp [pure, Except.pure] at h; subst h; simp
+  | a :: l, r, h => by
+    rw [List.mapM_cons] at h
+    cases hfa : f a with
+    | error e => rw [hfa] at h; cases h
+    | ok b =>
+      rw [hfa] at h
+      cases hl : l.mapM f with
+      | error e => rw [hl] at h; cases h
+      | ok bs =>
+        rw [hl] at h
+        have : r = b :: bs := by cases h; rfl
+        subst this
+        have ih := mapM_ok_get f l bs hl
+        refine ⟨by simp [ih.1], ?_⟩
+        intro i x hx
+        cases i with
+        | zero => simp at hx; subst hx; exact ⟨b, hfa, rfl⟩
+        | succ i =>
+          simp at hx
+          obtain ⟨v, h1, h2⟩ := ih.2 i x hx
+          exact ⟨v, h1, by simpa using h2⟩
+
+theorem idxIn_getElem? (a : Int) : ∀ (l : List Int) (i : Nat), idxIn a l = some i → l[i]? = some a
+  | [], i, h => by simp [idxIn] at h
+  | x :: xs, i, h => by
+    unfold idxIn at h
+    split at h
+    · next hx => simp at h; subst h; simp [hx]
+    · cases hr : idxIn a xs with
+      | none => rw [hr] at h; simp at h
+      | some j =>
+        rw [hr] at h; simp at h; subst h
+        simpa using idxIn_getElem? a xs j hr
+
+theorem clockOfT_getElem? (tbl : List Int) (a : Int) (i : Nat) (h : clockOfT tbl a = .ok i) : tbl[i]? = some a := by
+  unfold clockOfT at h
+  split at h
+  · next j hj => cases h; exact idxIn_getElem? a tbl _ hj
+  · cases h
+
+theorem atIdxT_ok (tbl : List Int) (j v : Int) (h : atIdxT tbl j = .ok v) : 0 ≤ j ∧ tbl[j.toNat]? = some v := by
+  unfold atIdxT at h
+  split at h
+  · cases h
+  · split at h
+    · next r hr => cases h; exact ⟨by omega, hr⟩
+    · cases h
+
+/-- number of elements of python `range(a, stop, step)` -/
+def pyRangeLen (a stop step : Int) : Nat :=
+  (if step > 0 then (stop - a + step - 1) / step else (a - stop + (-step) - 1) / (-step)).toNat
+
+theorem pyRange_getElem? (a stop step : Int) (i : Nat) (h : i < pyRangeLen a stop step) :
+    (pyRange a stop step)[i]? = some (a + (i : Int) * step) := by
+  unfold pyRange
+  unfold pyRangeLen at h
+  simp only [List.getElem?_map]
+  rw [List.getElem?_range h]
+  rfl
+
+theorem pyRange_length (a stop step : Int) : (pyRange a stop step).length = pyRangeLen a stop step := by
+  unfold pyRange pyRangeLen; simp
+
+
+/-- `Calendar.drange(x, y, 'kb')` for any `k ≠ 0`, against the table: the result has python's `range(i0, i1 + k, k)`
+length and its `i`-th entry is the table entry at position `i0 + k*i` (`i0`, `i1` the positions of the adjusted endpoints) -/
+theorem drangeB_spec (c : Cal) (x y k : Int) (lk : List Int) (h : c.drangeB x y k = .ok lk) :
+    ∃ i0 i1 : Nat, clockOfT c.bdays (c.adjust c.adj x) = .ok i0 ∧ clockOfT c.bdays (c.adjust c.adj y) = .ok i1 ∧
+      c.bdays[i0]? = some (c.adjust c.adj x) ∧ c.bdays[i1]? = some (c.adjust c.adj y) ∧ k ≠ 0 ∧
+      lk.length = pyRangeLen i0 (i1 + k) k ∧
+      ∀ i : Nat, i < lk.length → 0 ≤ (i0 : Int) + i * k ∧ lk[i]? = c.bdays[((i0 : Int) + i * k).toNat]? := by
+  unfold Cal.drangeB Cal.drangeBT at h
+  cases h0 : clockOfT c.bdays (c.adjust c.adj x) with
+  | error e => rw [h0] at h; cases h
+  | ok i0 =>
+    rw [h0] at h
+    cases h1 : clockOfT c.bdays (c.adjust c.adj y) with
+    | error e => rw [h1] at h; cases h
+    | ok i1 =>
+      rw [h1] at h
+      simp only [bind, Except.bind] at h
+      by_cases hk : k = 0
+      · simp [hk] at h
+      · simp only [hk, if_false] at h
+        have hm := mapM_ok_get (atIdxT c.bdays) _ lk h
+        rw [pyRange_length] at hm
+        refine ⟨i0, i1, rfl, rfl, clockOfT_getElem? _ _ _ h0, clockOfT_getElem? _ _ _ h1, hk, hm.1, ?_⟩
+        intro i hi
+        rw [hm.1] at hi
+        obtain ⟨v, hv, hr⟩ := hm.2 i _ (pyRange_getElem? _ _ _ i hi)
+        have := atIdxT_ok _ _ _ hv
+        exact ⟨this.1, by rw [hr, this.2]⟩
+
 end Pyg.Calendar
